@@ -22,7 +22,7 @@
                                  SaxRefine.prints_admitted_stmt
      C04_prints_admitted_checked(_init)  no premise: Inv is checked by `inv_b` before every step of the run
      C04_prints_admitted         NO premise about runs: for every parsed, accepted, closed program passing the
-                                 computable checks rt_syn_ok and init_linear, every Async run prints labels that
+                                 computable check init_linear, every Async run prints labels that
                                  Sax.v prints from sax_init p (the residue and Inv are derived from C01/C03's
                                  invariant of the core fragment, proofs/SaxTyped.v); C04_prints_admitted_polarized:
                                  also the synchronous polarized mode
@@ -93,10 +93,10 @@ Proof. exact prints_admitted_residue. Qed.
    of the core fragment that C01 / C03 prove for every reachable configuration (cfg_typed + Topo +
    LinCfg + CoreCfg + ns_ok: TopoReach.inv_reachable).  What is left are conditions on the PROGRAM,
    all computable and evaluated per program by the check (`c04_premises_text`): closed (in_fragment),
-   rt_syn_ok (names as the parser makes them), init_linear (function and initial bodies in the core
+   init_linear (function and initial bodies in the core
    fragment and affine, one provider per process, initial configuration a forest). *)
 Theorem C04_prints_admitted : forall txt p p',
-  parse_string txt = POk p -> typecheck p = Accept p' -> in_fragment p' -> rt_syn_ok p = true ->
+  parse_string txt = POk p -> typecheck p = Accept p' -> in_fragment p' ->
   init_linear p' ->
   forall fuel pick, exists C',
     sax_steps (p_funs p') false (sax_init p')
@@ -106,7 +106,7 @@ Proof. exact prints_admitted_parsed. Qed.
 (* the same in both polarized modes: a synchronous rendezvous is two asynchronous steps *)
 Theorem C04_prints_admitted_polarized : forall md txt p p',
   is_np md = false ->
-  parse_string txt = POk p -> typecheck p = Accept p' -> in_fragment p' -> rt_syn_ok p = true ->
+  parse_string txt = POk p -> typecheck p = Accept p' -> in_fragment p' ->
   init_linear p' ->
   forall fuel pick, exists C',
     sax_steps (p_funs p') false (sax_init p')
